@@ -1343,7 +1343,8 @@ def mutex_Unlock(ex, st, args, ctx):
 
 
 def i_no_locks_held(ex, st, args, ctx):
-    return z3.BoolVal(not any(isinstance(k, tuple) and k and k[0] == 'mutex' and v for k, v in st.heap.items()))
+    """no mutex is held and no slot of a buffered channel (semaphore) is taken"""
+    return z3.BoolVal(not any(isinstance(k, tuple) and k and ((k[0] == 'mutex' and v) or (k[0] == 'chanbuf' and v[0])) for k, v in st.heap.items()))
 
 
 def i_body_wellformed(ex, st, args, ctx):
@@ -1495,15 +1496,43 @@ def cev(st, kind, *payload, pos=None):
     st.events.append(('cev', getattr(st, 'tid', 0), kind) + tuple(payload) + (pos,))
 
 
-def chan_make(ex, st, ins):
+def chan_make(ex, st, ins, size=None):
     c = Chan(new_oid())
+    n = conc(size) if size is not None else 0
+    if n is None:
+        raise Unsupported('make(chan) with a symbolic capacity at %s' % ins.get('pos'))
+    if n > 0:
+        # buffered channel used as a counting semaphore / queue on one sequential path: the occupancy is state
+        used('buffered channel: a send takes a slot, a receive frees one; on a sequential path a send to a full channel or a receive from an empty one never returns')
+        st.heap[('chanbuf', c.cid)] = ((), n)
+        return c
     cev(st, 'makechan', c.cid, pos=ins.get('pos'))
     return c
+
+
+def chan_send(ex, st, ch, x, ins):
+    if not isinstance(ch, Chan):
+        raise PathEnd('panic', 'deadlock: send on nil channel blocks forever at %s' % ins.get('pos'))
+    b = st.heap.get(('chanbuf', ch.cid))
+    if b is None:
+        raise Unsupported('blocking send on an unbuffered channel at %s' % ins.get('pos'))
+    items, cap_ = b
+    if len(items) >= cap_:
+        raise PathEnd('panic', 'deadlock: send on a full buffered channel (capacity %d, every slot taken on earlier calls and never released) at %s' % (cap_, ins.get('pos')))
+    st.heap[('chanbuf', ch.cid)] = (items + (x,), cap_)
 
 
 def chan_recv(ex, st, fr, ins, ch):
     if not isinstance(ch, Chan):
         raise PathEnd('panic', 'receive from nil channel blocks forever at %s' % ins.get('pos'))
+    b = st.heap.get(('chanbuf', ch.cid))
+    if b is not None:
+        items, cap_ = b
+        if not items:
+            raise PathEnd('panic', 'deadlock: receive from an empty buffered channel with no sender on this path at %s' % ins.get('pos'))
+        st.heap[('chanbuf', ch.cid)] = (items[1:], cap_)
+        ex.setreg(fr, ins, (items[0], z3.BoolVal(True)) if ins.get('commaok') else items[0])
+        return
     cev(st, 'recv', ch.cid, pos=ins.get('pos'))
     ex.setreg(fr, ins, (Struct([]), z3.BoolVal(False)) if ins.get('commaok') else Struct([]))
 
@@ -1566,7 +1595,7 @@ def ext_any(ex, st, args, ctx):
     return Opaque('ext', callee=ctx['name'], args=tuple(args), oid=new_oid())
 
 
-BASE.update({'chan:make': chan_make, 'chan:recv': chan_recv, 'chan:close': chan_close, 'go': go_stmt,
+BASE.update({'chan:make': chan_make, 'chan:send': chan_send, 'chan:recv': chan_recv, 'chan:close': chan_close, 'go': go_stmt,
              '(*net/http.Server).ListenAndServe': http_ListenAndServe, '(*net/http.Server).Shutdown': http_Shutdown, '(*net/http.Server).Close': http_Close,
              'context.Background': ctx_Background, 'context.TODO': ctx_Background, 'context.WithTimeout': ctx_WithTimeout, 'verif:noop': lambda ex, st, a, c: None,
              'global:net/http.ErrServerClosed': lambda ex, st: ERR_SERVER_CLOSED})
